@@ -12,7 +12,7 @@
 (*                                                                         *)
 (* An operation is a tuple <<name, r, a, b, k>>: r = written register,     *)
 (* a, b = read registers, k = small integer argument or a 32-byte string.  *)
-(* FePre is its documented precondition, FeStep its documented effect,     *)
+(* FePre is its documented precondition, FeEffect its documented effect,   *)
 (* values being exact arithmetic modulo P (Curve.tla).                     *)
 (*                                                                         *)
 (* ERRATA of the header against its own executable contract (the VERIFY    *)
